@@ -267,7 +267,7 @@ def build(read):
         f1, "new_invalid_bind_error", "s: &str", "Result<()>",
         "r is Err && at(r->Err_0, *loc) && inner(r->Err_0) is InvalidBindTarget", "bind_next")
     b.edits.append("annotation: closures `new_loc_err`, `new_invalid_bind_error` given parameter types, named result and postconditions")
-    f1 = extract.annotate_fn(f1, spec=SPEC_NEXT, body_start="    let ghost rhs0 = rhs;\n    let ghost op0 = op;\n")
+    f1 = extract.annotate_fn(f1, spec=SPEC_NEXT, attrs="#[verifier::exec_allows_no_decreases_clause]\n", body_start="    let ghost rhs0 = rhs;\n    let ghost op0 = op;\n")
     # ---- the operation performed on the locked cell (ghost snapshots + labelled assertions)
     def effect(kind, old_, new_, what):
         """labelled in-body assertion; if its anchor is not in the current source the clause is skipped (recorded), not the whole unit"""
@@ -304,8 +304,8 @@ def build(read):
         r"\1                    proof { assert(!m0.contains_key(name@) && props.0.0@ == m0.insert(name@, rhs0)); } // [C12:property_assignment_to_an_absent_key_adds_exactly_that_property_like_index_assignment]\n",
         "bind_next: object property write effect (new key)")
     b.edits.append("annotation: ghost snapshots of the locked cell and 6 labelled assertions stating the operation performed on it")
-    f2 = extract.annotate_fn(f2, spec=SPEC_BOA)
-    f3 = extract.annotate_fn(f3, spec=SPEC_BIND)
+    f2 = extract.annotate_fn(f2, spec=SPEC_BOA, attrs="#[verifier::exec_allows_no_decreases_clause]\n")
+    f3 = extract.annotate_fn(f3, spec=SPEC_BIND, attrs="#[verifier::exec_allows_no_decreases_clause]\n")
     setf = extract.annotate_fn(setf, spec="\n    ensures *final(slot) == v, // [C11_C12_C14:a_store_puts_the_value_together_with_its_provenance_into_the_slot]\n")
     b.edits.append("D3: std HashSet<String> / BTreeMap<String, SourcedValue> replaced by assumed set / finite-map contracts")
 
